@@ -34,7 +34,9 @@ Lemma call_fun f fd self args kws w :
    do ow <- exec G f (f_body fd) ρ0 w;
    match fst ow with
    | OReturn v => Ok (v, snd ow)
-   | ONormal _ => Ok (VNone, snd ow)
+   | ONormal ρ' =>
+       if String.eqb (f_name fd) "__init__" then Ok (match lookup "self" ρ' with Some o => o | None => VNone end, snd ow)
+       else Ok (VNone, snd ow)
    | OTail o targs tkws => o targs tkws (snd ow)
    end).
 Proof. reflexivity. Qed.
